@@ -129,6 +129,7 @@ type WorkerResult struct {
 	Paths        int                    `json:"paths"`
 	PathsByKind  map[string]int         `json:"paths_by_kind"`
 	Exhausted    bool                   `json:"dfs_exhausted"`
+	Killed       bool                   `json:"killed_by_signal,omitempty"`
 	Asserts      map[string]*assertStat `json:"asserts"`
 	Candidates   []Candidate            `json:"candidates"`
 	Unsupported  map[string]int         `json:"unsupported,omitempty"`
@@ -163,7 +164,14 @@ var shardW, shardN, shardDepth int
 func main() {
 	debug.SetMaxStack(2 << 30)
 	debug.SetGCPercent(400)
-	debug.SetMemoryLimit(3 << 30)
+	memLimit := int64(3 << 30)
+	if v := os.Getenv("GOSYM_MEMLIMIT_MB"); v != "" {
+		var mb int64
+		if _, err := fmt.Sscanf(v, "%d", &mb); err == nil && mb >= 256 {
+			memLimit = mb << 20
+		}
+	}
+	debug.SetMemoryLimit(memLimit)
 	if len(os.Args) < 2 {
 		fmt.Fprintln(os.Stderr, "usage: gosym run|worker|list ...")
 		os.Exit(2)
@@ -679,16 +687,26 @@ func cmdRun(args []string) int {
 	var loadMu sync.Mutex
 	var wg sync.WaitGroup
 	sem := make(chan struct{}, *jobs)
-	for k, h := range sel {
-		wg.Add(1)
-		go func(k int, h harnessSpec) {
-			defer wg.Done()
-			sem <- struct{}{}
-			defer func() { <-sem }()
+	// memory: the workers share what is available now (Go heap limit per worker, soft)
+	memMB := int64(3072)
+	if avail := memAvailableMB(); avail > 0 {
+		per := avail * 7 / 10 / int64(*jobs)
+		if per < memMB {
+			memMB = per
+		}
+		if memMB < 1024 {
+			memMB = 1024
+		}
+	}
+	runOne := func(k int, h harnessSpec, budget time.Duration) {
+		{
 			outp := filepath.Join(tmp, fmt.Sprintf("%s-%d.json", h.name, k))
+			os.Remove(outp)
+			os.Remove(outp + ".loaded")
 			cmd := exec.Command(self, "worker", "-repo", *repo, "-prop", *prop, "-harness", h.name, "-out", outp,
-				"-tier", *tier, "-solver", *solverKind, "-qtimeout", fmt.Sprint(qt), "-fix", h.fix, "-budget", share().String(), "-shard", h.shard)
-			cmd.Env = append(os.Environ(), "GOFLAGS=-mod=mod", "GOPROXY=off", "GOSUMDB=off", "GOTOOLCHAIN=local")
+				"-tier", *tier, "-solver", *solverKind, "-qtimeout", fmt.Sprint(qt), "-fix", h.fix, "-budget", budget.String(), "-shard", h.shard)
+			cmd.Env = append(os.Environ(), "GOFLAGS=-mod=mod", "GOPROXY=off", "GOSUMDB=off", "GOTOOLCHAIN=local",
+				fmt.Sprintf("GOSYM_MEMLIMIT_MB=%d", memMB))
 			var errb strings.Builder
 			cmd.Stderr = &errb
 			cmd.Stdout = &errb
@@ -739,9 +757,35 @@ func cmdRun(args []string) int {
 				r.Error += "\n" + tail
 			}
 			results[k] = r
+		}
+	}
+	for k, h := range sel {
+		wg.Add(1)
+		go func(k int, h harnessSpec) {
+			defer wg.Done()
+			sem <- struct{}{}
+			defer func() { <-sem }()
+			runOne(k, h, share())
 		}(k, h)
 	}
 	wg.Wait()
+	// a worker killed from outside (the kernel's OOM killer under memory pressure) is run
+	// again on its own; if that is killed too its part of the bound is reported as not
+	// explored instead of failing the check
+	for k, h := range sel {
+		if r := results[k]; r != nil && strings.Contains(r.Error, "signal: killed") {
+			fmt.Fprintf(os.Stderr, "NOTE: %s [%s]: worker was killed (memory pressure?), running it again alone\n", h.name, h.shard)
+			d := time.Until(overall)
+			if d < 3*time.Minute {
+				d = 3 * time.Minute
+			}
+			runOne(k, h, d)
+			if r2 := results[k]; r2 != nil && strings.Contains(r2.Error, "signal: killed") {
+				fmt.Fprintf(os.Stderr, "NOTE: %s [%s]: killed again; its share of the bound was not explored\n", h.name, h.shard)
+				results[k] = &WorkerResult{Harness: h.name, Exhausted: false, Killed: true}
+			}
+		}
+	}
 
 	return report(*repo, *prop, *tier, results, hfs, sel, time.Since(t0), *noReplay)
 }
@@ -1168,6 +1212,22 @@ func report(repo, prop, tier string, results []*WorkerResult, hfs []harnessFile,
 	fmt.Fprintf(os.Stderr, "%s %s: harnesses=%d paths=%d queries=%d solver=%.1fs wall=%.1fs violations=%d known=%d spurious=%d inconclusive=%d unsupported=%d exhausted=%v\n",
 		prop, tier, len(results), totalPaths, totalQueries, solverS, wall.Seconds(), violations, len(knownHit), len(spurious), inconclusive, unsupported, exhausted)
 	return exit
+}
+
+// memAvailableMB reads MemAvailable from /proc/meminfo (0 if unknown).
+func memAvailableMB() int64 {
+	b, err := os.ReadFile("/proc/meminfo")
+	if err != nil {
+		return 0
+	}
+	for _, l := range strings.Split(string(b), "\n") {
+		if strings.HasPrefix(l, "MemAvailable:") {
+			var kb int64
+			fmt.Sscanf(strings.TrimSpace(strings.TrimPrefix(l, "MemAvailable:")), "%d", &kb)
+			return kb / 1024
+		}
+	}
+	return 0
 }
 
 func seedFromEnv() int {
